@@ -733,8 +733,69 @@ func (h *H) bodyInfo(name string) bodyInfo {
 	return bi
 }
 
+// detectMT: the media type a document without Content-Type is to be read as: its mediaType field; else an index if it
+// lists manifests (Docker list if the first child is of a Docker type); else an image manifest by its config's type
+func detectMT(raw []byte) string {
+	var d struct {
+		MediaType string             `json:"mediaType"`
+		Config    types.Descriptor   `json:"config"`
+		Manifests []types.Descriptor `json:"manifests"`
+	}
+	if json.Unmarshal(raw, &d) != nil {
+		return ""
+	}
+	switch {
+	case d.MediaType != "":
+		return mtToken(d.MediaType)
+	case len(d.Manifests) > 0:
+		if strings.HasPrefix(d.Manifests[0].MediaType, "application/vnd.docker.") {
+			return "dockl"
+		}
+		return "ocii"
+	case d.Config.MediaType == "":
+		return ""
+	case strings.HasPrefix(d.Config.MediaType, "application/vnd.docker."):
+		return "dockm"
+	}
+	return "ocim"
+}
+
 func isImageMT(t string) bool { return t == "ocim" || t == "dockm" }
 func isIndexMT(t string) bool { return t == "ocii" || t == "dockl" }
+
+// refusedUnchanged (C04, second half): a refused push leaves the observable state of the repository as it was - the tag
+// still resolves to what it resolved to, the refused body is not served as a manifest or as a blob, and it is not listed
+// as a referrer - unless the same bytes had been acknowledged before
+func (m *Monitors) refusedUnchanged(h *H, repo, ref string, body []byte, r Resp) {
+	rs := m.repo(repo)
+	if r.Status < 400 || r.Status >= 500 || rs.dirty || !m.routable(h, repo) || len(body) == 0 {
+		return
+	}
+	acc := map[string][]string{"Accept": {mtReal["ocim"], mtReal["ocii"], mtReal["dockm"], mtReal["dockl"]}}
+	if types.RefTagRE.MatchString(ref) {
+		g := h.do("HEAD", "/v2/"+repo+"/manifests/"+ref, reqOpt{mode: "head", hdr: acc})
+		was, had := rs.tags[ref]
+		got := g.header.Get("Docker-Content-Digest")
+		if (had && g.Status == 200 && got != was) || (!had && g.Status == 200) {
+			m.flag(h, "C04.refused-changed", fmt.Sprintf("push to tag %s refused with %d, but the tag now resolves to %s (before: %q)", ref, r.Status, h.tk.tokDigest(got), h.tk.tokDigest(was)))
+		}
+	}
+	for _, alg := range algs {
+		d := alg.FromBytes(body).String()
+		if rs.holds(d) {
+			continue
+		}
+		if _, ok := rs.mans[d]; ok {
+			continue
+		}
+		if g := h.do("HEAD", "/v2/"+repo+"/manifests/"+d, reqOpt{mode: "head", hdr: acc}); g.Status == 200 {
+			m.flag(h, "C04.refused-changed", fmt.Sprintf("push refused with %d, but the body is served as manifest %s", r.Status, h.tk.tokDigest(d)))
+		}
+		if g := h.do("HEAD", "/v2/"+repo+"/blobs/"+d, reqOpt{mode: "head"}); g.Status == 200 {
+			m.flag(h, "C04.refused-changed", fmt.Sprintf("push refused with %d, but the body is stored as blob %s", r.Status, h.tk.tokDigest(d)))
+		}
+	}
+}
 
 func (m *Monitors) mPut(h *H, a []string, r Resp) {
 	m.common(h, "MPUT", r)
@@ -751,6 +812,7 @@ func (m *Monitors) mPut(h *H, a []string, r Resp) {
 		limit = 8 * 1024 * 1024
 	}
 	if r.Status != 201 {
+		m.refusedUnchanged(h, repo, ref, body, r)
 		return
 	}
 	// acknowledged
@@ -786,7 +848,7 @@ func (m *Monitors) mPut(h *H, a []string, r Resp) {
 	// effective media type
 	mt := ct
 	if mt == "" {
-		mt = mtToken(types.MediaTypeDetect(body))
+		mt = detectMT(body) // the harness's own reading of the document, not the function under test
 	}
 	switch bi.kind {
 	case "junk", "blob":
@@ -1054,7 +1116,9 @@ func (m *Monitors) refs(h *H, a []string, r Resp) {
 			m.flag(h, "C07.refs-exact", "descriptor listed twice: "+g)
 		}
 		seen[g] = true
-		if !exp[g] {
+		// a continuation (cache=<digest of the response the client started with>) pages through that snapshot: what it
+		// lists is judged when the chain is walked from a fresh request (below), not against the present state
+		if !exp[g] && kv(a, "cache") == "" {
 			m.flag(h, "C07.refs-exact", fmt.Sprintf("referrers of %s lists %s which is not a present manifest with that subject%s", sTok, g, map[bool]string{true: " and filter", false: ""}[filter != ""]))
 		}
 	}
